@@ -123,6 +123,27 @@ theorem jd_gmt_linear (dt : Date) (g d : ℝ) (h : GregorianDate dt) :
     jdValue dt (g + d) = jdValue dt g - d / 24 := by
   rw [jd_eq_rd dt _ h, jd_eq_rd dt _ h]; ring
 
+/-- **right-ascension wrap**: if prev, cur, next are the reductions into [0,360) of an unwrapped
+    sequence P < C < N with daily steps in (0°, 10°) and C itself in [0,360), the interpolation
+    deltas are those of the unwrapped sequence.  False of the code as first found (`prev_ra = 0.`):
+    then `Gen.raWrapPrev` is the constant 0 and this theorem does not check. -/
+theorem ra_wrap_lift (P C N : ℝ) (hC0 : 0 ≤ C) (hC1 : C < 360)
+    (hp0 : 0 < C - P) (hp1 : C - P < 10) (hn0 : 0 < N - C) (hn1 : N - C < 10) :
+    raInterpDeltas (if P < 0 then P + 360 else P) C (if 360 ≤ N then N - 360 else N) = (N - P, N + P - 2 * C) := by
+  simp only [raInterpDeltas, Gen.raWrapNext, Gen.raWrapPrev, sc_ltb, c_RA_WRAP_HI, c_RA_WRAP_LO, c_TWO_PI_DEG, lit_two,
+    Bool.and_eq_true, decide_eq_true_eq]
+  by_cases hP : P < 0 <;> by_cases hN : 360 ≤ N <;> simp only [hP, hN, if_true, if_false]
+  · exfalso; linarith
+  · have a : ¬ (350 < C ∧ N < 10) := fun h => by linarith [h.1, h.2]
+    have b : 350 < P + 360 ∧ C < 10 := ⟨by linarith, by linarith⟩
+    simp only [a, b, if_true, if_false]; ext <;> simp <;> ring
+  · have a : 350 < C ∧ N - 360 < 10 := ⟨by linarith, by linarith⟩
+    have b : ¬ (350 < P ∧ C < 10) := fun h => by linarith [h.1, h.2]
+    simp only [a, b, if_true, if_false]; ext <;> simp <;> ring
+  · have a : ¬ (350 < C ∧ N < 10) := fun h => by linarith [h.1, h.2]
+    have b : ¬ (350 < P ∧ C < 10) := fun h => by linarith [h.1, h.2]
+    simp only [a, b, if_false]
+
 -- non-vacuity: leap-day and year-end neighbours are Gregorian dates one day-number apart
 example : GregorianDate ⟨2024, 2, 29⟩ ∧ GregorianDate ⟨2024, 3, 1⟩ ∧ toRD ⟨2024, 3, 1⟩ = toRD ⟨2024, 2, 29⟩ + 1 := by
   unfold GregorianDate; decide
